@@ -307,6 +307,10 @@ def mkbytes(items):
         return bytes(int(x) for x in items)
     from crosshair.libimpl.builtinslib import SymbolicBytes
     with NoTracing():
+        # nothing symbolic in it: real bytes, so that whatever the code under test does with them (decode with an error
+        # handler, hashing, C-level parsing) is the interpreter's behaviour and not CrossHair's model of it
+        if all(type(x) is int for x in items):
+            return bytes(items)
         return SymbolicBytes(items)
 
 
